@@ -108,6 +108,24 @@ def gen_case(rng, cid, table, force=None):
             body += ["key - %d 1" % act_keys["panic"], "key - %d 0" % act_keys["panic"], "led.state", "led.frame"]
         elif rng.random() < 0.5:
             body += ["midiin %02x%02x00" % (0x90 | chx, keymaps[defmap][c] + off0), "led.state", "led.frame"]
+    if lit and rng.random() < 0.4:
+        # the same pitch sounding on several MIDI-input channels at once: the current one, a lower and a higher one, in a
+        # random order of arrival — the current channel's external colour must win, else the lowest other channel's colour
+        c = rng.choice(lit)
+        cur = defch - 1
+        chans = [cur] if rng.random() < 0.8 else []
+        if cur >= 1:
+            chans.append(rng.randrange(cur))
+        if cur <= 14:
+            chans.append(rng.randrange(cur + 1, 16))
+        if rng.random() < 0.5:
+            chans.append(rng.randrange(16))
+        rng.shuffle(chans)
+        for chx in chans:
+            body.append("midiin %02x%02x40" % (0x90 | chx, keymaps[defmap][c] + off0))
+        body += ["led.state", "led.frame"]
+        if chans and rng.random() < 0.5:
+            body += ["midiin %02x%02x40" % (0x80 | rng.choice(chans), keymaps[defmap][c] + off0), "led.state", "led.frame"]
     n_ops = rng.randrange(3, 14)
     for _ in range(n_ops):
         r = rng.random()
